@@ -8,6 +8,13 @@ Driver family `vaa` (C04, C05, C06).  Case lines (fields separated by one space)
 * `body <id> v=<canon> body=<hex> dig=<hex> kk=<hex>` — `SerializeBody`, `SigningMsg`, and Keccak(Keccak(body)) recomputed by the harness.
 * `eq|ne <id> <clause> <a> <b>` — Spec evaluated on two implementation values (digest equal / different).
 * `ver <id> addrs=<hex,..|-> sigs=<idx:hex;..|-> rec=<sighex:addrhex|none;..|-> res=true|false|panic`
+* `wver <id> in=<hex> addrs=.. rec=.. dec=ok|err|errnonnil|panic res=true|false|panic|-` — the wire path: `Unmarshal(in)` then
+  `VerifySignatures`; the signature records (and their ORDER) are read off `in` by `wireSigs`, the Spec is `validB` on those.
+* `wire <id> v=<canon> res=ok|err:..|panic out=<hex> body=<hex> dig=<hex> kkw=<hex|->` — `Marshal`, `SerializeBody`, `SigningMsg`, and
+  Keccak(Keccak(·)) of the section of `out` the contracts hash (everything after `6 + 66·out[5]` bytes), computed by the harness.
+* `conc <id> what=digest|wire|process calls=<n> bad=<n> panics=<n> want=<x> got=<x> [v=<canon of the first deviating call's VAA>]` — results of calls made while other goroutines call
+  into the package, `want` = what the same call returned sequentially; `got=panic:..` / `hang:..` / `crash:..` when it did not return.
+* `enc` lines with `back=nomarshal merr=<text>`: `Marshal` returned an error (or panicked) instead of bytes.
 
 canon = `ver,gs,sigs,ts,nonce,ec,tc,emhex,seq,cl,plhex`, sigs = `-` or `idx:hex;idx:hex`.
 -/
@@ -63,6 +70,35 @@ def parseRec (s : String) : Option (List (Bytes × Option Addr)) :=
 def parseAddrs (s : String) : Option (List Addr) :=
   if s = "-" then some [] else (s.splitOn ",").mapM parseHexD
 
+/-- The section of a serialized VAA the contracts hash: everything after the `6 + 66·k`-byte header, `k` = the count byte at
+offset 5 (`Whv.C04.header_offsets` proves these are the constants extracted from `Messages.sol` and `governance.ral`;
+`Whv.C04.contract_body_of_wire`: on the model's encoding this is the signing body, for every payload length). -/
+def contractBody (wire : Bytes) : Bytes :=
+  match takeN 5 wire with
+  | none => []
+  | some (_, r) =>
+    match takeN 1 r with
+    | none => []
+    | some (k, r2) => r2.drop (66 * unbe k)
+
+/-- The signature records of a serialized VAA in wire order (`none`: the string ends inside the signature section);
+`Whv.C06.wireSigs_of_unmarshal`: for every string the decoder accepts this is the decoded list. -/
+def wireSigs (wire : Bytes) : Option (List Sig) :=
+  match takeN 5 wire with
+  | none => none
+  | some (_, r) =>
+    match takeN 1 r with
+    | none => none
+    | some (k, r2) => (readSigs (unbe k) r2).map (·.1)
+
+/-- The path every consumer of serialized VAAs takes: `Unmarshal`, then `VerifySignatures` on the result. -/
+def decodeVerify (recover : Bytes → Option Addr) (wire : Bytes) (addrs : List Addr) : Bool :=
+  match unmarshal wire with
+  | none => false
+  | some v => verifySignatures recover v.sigs addrs
+
+def showIdx (l : List Sig) : String := ",".intercalate (l.map fun s => toString s.idx)
+
 structure St where
   n : Nat := 0
   wf : Nat := 0
@@ -102,7 +138,12 @@ def step (st : St) (line : String) : St × List String :=
     | some v, some out, some back =>
       let st := { st with n := st.n + 1 }
       let mo := marshal v
-      if mo ≠ out then (st, [s!"diff {id} marshal model={toHex mo} impl={toHex out}"])
+      if back = "nomarshal" then
+        -- the encoder gave no bytes at all: for a VAA inside the statement's domain there is then nothing to decode
+        if decide v.WF then
+          (st, [s!"spec {id} in-domain-vaa-not-encodable Marshal failed ({(kv rest "merr").getD "?"}) on a VAA with {v.sigs.length} signatures and a {v.body.payload.length}-byte payload"])
+        else (st, [s!"diff {id} marshal model={mo.length} bytes impl fails ({(kv rest "merr").getD "?"}) on an out-of-domain VAA"])
+      else if mo ≠ out then (st, [s!"diff {id} marshal model={toHex mo} impl={toHex out}"])
       else if decide v.WF then
         let st := { st with wf := st.wf + 1 }
         if back = "panic" then (st, [s!"spec {id} decoder-panic Unmarshal(Marshal(v)) panicked"])
@@ -135,6 +176,59 @@ def step (st : St) (line : String) : St × List String :=
     ({ st with n := st.n + 1 }, [if a = b then s!"ok {id}" else s!"spec {id} {clause} values differ: {a} vs {b}"])
   | ["ne", id, clause, a, b] =>
     ({ st with n := st.n + 1 }, [if a ≠ b then s!"ok {id}" else s!"spec {id} {clause} values coincide: {a}"])
+  | "wire" :: id :: rest =>
+    match kv rest "v" >>= parseCanon, kv rest "res", kvHex rest "out", kvHex rest "body" with
+    | some v, some res, some out, some b =>
+      let st := { st with n := st.n + 1 }
+      -- domain of the clause: what the wire form can carry (count byte = number of records, 65-byte signatures)
+      let dom := decide (v.sigs.length ≤ 255) && v.sigs.all (fun s => decide s.WF)
+      if res ≠ "ok" then (st, [s!"diff {id} marshal model={(marshal v).length} bytes impl {res}"])
+      else
+        let sec := contractBody out
+        if dom && sec ≠ b then
+          (st, [s!"spec {id} wire-body-not-signing-body the serialized VAA ({v.sigs.length} signatures, {v.body.payload.length}-byte payload) carries a {sec.length}-byte body after its header, the signing body has {b.length} bytes: wire={toHex sec} signed={toHex b}"])
+        else if dom && kv rest "kkw" ≠ kv rest "dig" then
+          (st, [s!"spec {id} contract-digest-not-signed-digest contracts hash {(kv rest "kkw").getD "?"} from the wire form, guardians sign {(kv rest "dig").getD "?"}"])
+        else if marshal v ≠ out then (st, [s!"diff {id} marshal model={toHex (marshal v)} impl={toHex out}"])
+        else if serializeBody v.body ≠ b then (st, [s!"diff {id} serializeBody model={toHex (serializeBody v.body)} impl={toHex b}"])
+        else (st, [s!"ok {id}"])
+    | _, _, _, _ => (st, [s!"diff {id} unparsable wire line"])
+  | "conc" :: id :: rest =>
+    match kv rest "what", kv rest "want", kv rest "got" with
+    | some what, some want, some got =>
+      let st := { st with n := st.n + 1 }
+      if got.startsWith "crash:" then
+        (st, [s!"spec {id} concurrent-callers-crash-the-process the process running concurrent digest / encode / verify calls died: {got}"])
+      else if got.startsWith "hang:" then
+        (st, [s!"spec {id} concurrent-calls-never-return digest / encode / verify calls made from several goroutines did not return: {got}"])
+      else if got.startsWith "panic:" then
+        (st, [s!"spec {id} concurrent-{what}-panics {got} (sequentially the same call returned {want.take 80})"])
+      else if got ≠ want then
+        (st, [s!"spec {id} concurrent-{what}-differs sequentially {want}, with other goroutines calling into the package {got} ({(kv rest "bad").getD "?"} of {(kv rest "calls").getD "?"} calls deviate) on VAA {((kv rest "v").getD "-").take 400}"])
+      else (st, [s!"ok {id}"])
+    | _, _, _ => (st, [s!"diff {id} unparsable conc line"])
+  | "wver" :: id :: rest =>
+    match kvHex rest "in", kv rest "addrs" >>= parseAddrs, kv rest "rec" >>= parseRec, kv rest "dec", kv rest "res" with
+    | some inp, some addrs, some tbl, some dec, some res =>
+      let recover : Bytes → Option Addr := fun s => (tbl.lookup s).join
+      let st := { st with n := st.n + 1 }
+      if dec = "panic" then (st, [s!"spec {id} decoder-panic Unmarshal panicked on {inp.length} bytes"])
+      else if res = "panic" then (st, [s!"spec {id} verify-panic VerifySignatures panicked on a decoded VAA"])
+      else
+        -- Spec: the signature records as they stand on the wire, in wire order
+        match wireSigs inp with
+        | none => (st, [s!"diff {id} wver: harness wrote a wire string without a complete signature section"])
+        | some wsigs =>
+          let sp := validB recover wsigs addrs
+          let accepted := dec = "ok" && res = "true"
+          let m := decodeVerify recover inp addrs
+          if accepted && !sp then
+            (st, [s!"spec {id} wire-verify-accepts-invalid decode+verify accepts a serialized VAA whose signature records are not Valid (wire order {showIdx wsigs})"])
+          else if !accepted && sp && dec = "ok" then
+            (st, [s!"spec {id} wire-verify-rejects-valid decode+verify rejects a serialized VAA whose signature records are Valid (wire order {showIdx wsigs})"])
+          else if accepted ≠ m then (st, [s!"diff {id} wver model={m} impl dec={dec} res={res}"])
+          else (if accepted then { st with verTrue := st.verTrue + 1 } else { st with verFalse := st.verFalse + 1 }, [s!"ok {id}"])
+    | _, _, _, _, _ => (st, [s!"diff {id} unparsable wver line"])
   | "ver" :: id :: rest =>
     match kv rest "addrs" >>= parseAddrs, kv rest "sigs" >>= parseSigs, kv rest "rec" >>= parseRec, kv rest "res" with
     | some addrs, some sigs, some tbl, some res =>
